@@ -2165,7 +2165,7 @@ func (c *Check) ruleTimeoutsFire(rule string) {
 		var wit []string
 		explore([]walkNode{mkNode(b, succ)}, func(nd walkNode) bool {
 			if isExitBlock(nd.b) {
-				if !isErrorReturnBlock(nd.b) {
+				if !isErrorReturnBlock(nd.b) && !errorReturnOnPath(nd) {
 					okRet = false
 					wit = []string{"reaches a nil-error return at " + c.P.Pos(lastPos(nd.b))}
 				}
